@@ -219,6 +219,9 @@ func (s *scanner) scanner(store *stor.Stor) {
 			break
 		}
 		buf := store.Data(off)
+		if len(buf) < stateLen { // cut off by the end of the file or chunk
+			continue
+		}
 		if string(buf[magic2at:magic2at+len(magic2)]) != magic2 {
 			continue
 		}
